@@ -181,6 +181,31 @@ fn main() {
           let _ = tokio::time::timeout(Duration::from_secs(5), ctx.term()).await;
           true
         }
+        "DI" => {
+          // DEALER over inproc closes: does the bound ROUTER notice?
+          let router = ctx.socket(SocketType::Router).unwrap();
+          router.set_option(opt::ROUTER_MANDATORY, true).await.unwrap();
+          util::set_i32(&router, opt::RCVTIMEO, 1000).await;
+          let mon = router.monitor(256).await.unwrap();
+          let tr = if it % 2 == 0 { util::Transport::Inproc } else { util::Transport::Tcp };
+          let ep = util::bind_fresh(&router, tr).await.unwrap();
+          let d = ctx.socket(SocketType::Dealer).unwrap();
+          d.set_option_raw(opt::ROUTING_ID, b"D").await.unwrap();
+          let _ = d.connect(&ep).await;
+          tokio::time::sleep(Duration::from_millis(150)).await;
+          let _ = d.send(util::msg(b"hello".to_vec(), false)).await;
+          let got = router.recv_multipart().await.map(|m| m.len());
+          let _ = d.close().await;
+          tokio::time::sleep(Duration::from_millis(600)).await;
+          let mut evs = vec![];
+          while let Ok(Ok(e)) = tokio::time::timeout(Duration::from_millis(20), mon.recv()).await {
+            evs.push(format!("{:?}", e).chars().take(40).collect::<String>());
+          }
+          let r = router.send_multipart(vec![util::msg(b"D".to_vec(), true), util::msg(b"x".to_vec(), false)]).await;
+          println!("{}: hello received {:?}; after dealer.close(): events {:?}; send to D -> {:?}", tr.name(), got, evs, r.map_err(|e| util::err_kind(&e)));
+          let _ = tokio::time::timeout(Duration::from_secs(5), ctx.term()).await;
+          true
+        }
         "Q" => {
           // does ReadyPipeQueue::close() release a blocked pop() while a sender clone is still alive?
           let q = std::sync::Arc::new(rzmq::verif::Rpq::<u32>::new(4));
